@@ -926,3 +926,37 @@ pub fn tls_probe<S: IoRead + IoWrite + std::fmt::Debug>(stream: S, sni: &str, pr
         Err(e) => json!({"handshake_ok": false, "err": e.to_string()}),
     }
 }
+
+/// Like `tls_probe` but sends `sni` as the server name whatever it contains.
+pub fn tls_probe_sni<S: IoRead + IoWrite + std::fmt::Debug>(stream: S, sni: &str, protos: &[String]) -> Value {
+    let mut b = match SslConnector::builder(SslMethod::tls()) {
+        Ok(b) => b,
+        Err(e) => return json!({"handshake_ok": false, "err": e.to_string()}),
+    };
+    b.set_verify(SslVerifyMode::NONE);
+    if !protos.is_empty() {
+        let _ = b.set_alpn_protos(&alpn_wire(protos));
+    }
+    let conn = b.build();
+    let mut cfg = match conn.configure() {
+        Ok(c) => c,
+        Err(e) => return json!({"handshake_ok": false, "err": e.to_string()}),
+    };
+    cfg.set_verify_hostname(false);
+    cfg.set_use_server_name_indication(false);
+    let mut ssl = match cfg.into_ssl("x.invalid") {
+        Ok(s) => s,
+        Err(e) => return json!({"handshake_ok": false, "err": e.to_string()}),
+    };
+    if ssl.set_hostname(sni).is_err() {
+        return json!({"handshake_ok": false, "err": "cannot set server name"});
+    }
+    match ssl.connect(stream) {
+        Ok(mut s) => {
+            let alpn = s.ssl().selected_alpn_protocol().map(|p| String::from_utf8_lossy(p).to_string());
+            let _ = s.shutdown();
+            json!({"handshake_ok": true, "alpn": alpn})
+        }
+        Err(e) => json!({"handshake_ok": false, "err": e.to_string()}),
+    }
+}
